@@ -95,6 +95,23 @@ func (c *Ctx) genSquareCase(maxChoices []int) sqCase {
 				sc.class = "compact-ns-blob"
 			}
 			specs[j] = c.randBlob(ns, n, c.rng.Chance(1, 3))
+			if c.rng.Chance(1, 10) {
+				// probe: blobs that NewBlob must refuse (empty non-nil signer under version 0, signers of 19 / 21
+				// bytes under version 1). On the unchanged tree they are refused and nothing happens; if a change
+				// makes one acceptable it flows into the square like any other blob and every oracle sees it
+				probe := specs[j]
+				switch c.rng.Intn(3) {
+				case 0:
+					probe.ver, probe.signer = 0, []byte{}
+				case 1:
+					probe.ver, probe.signer = 1, c.rng.Bytes(19)
+				default:
+					probe.ver, probe.signer = 1, c.rng.Bytes(21)
+				}
+				if _, err := probe.blob(); err == nil {
+					specs[j] = probe
+				}
+			}
 			bd = append(bd, fmt.Sprintf("v%d:%d", specs[j].ver, n))
 		}
 		// inner-tx sizes: a few classes plus windows in which the wrapped PFB (inner + ~13 bytes) ends
